@@ -146,7 +146,7 @@ def check(run):
                   Variant(ident="CasedIdent", kind="tuple", fields=[Field("i64")]), Variant(ident="Named_ident", kind="named", fields=[Field("u8", name="field0")])]
             specs.append(EnumSpec(name="S%d" % k, variants=vs, derives=["Display"], prefix=prefix, serialize_all=[None, "kebab-case", "UPPERCASE"][k % 3], std_derives=["Debug", "Clone"]))
             k += 1
-    units = [shards.Unit("u_" + s.name.lower(), glue(s), meta={"enum_src": s.render()}, sig=s.signature()) for s in specs]
+    units = [shards.Unit("u_" + s.name.lower(), glue(s), meta={"enum_src": s.render(), "bare_src": s.render_bare()}, sig=s.signature()) for s in specs]
     run.rule = RULE
     samples = standard_flow(run, units, deps["std"], vmon, profiles=("fast",), tag="c17")
     pick_samples(run, samples, {u.name: u for u in units})
